@@ -380,6 +380,12 @@ class TypedGen:
             return self.cond('bool', d)
         if m < 0.52:
             ct = rng.choice(['int', 'uint', 'double', 'string', 'bool'])
+            if ct in ('int', 'uint', 'double') and rng.random() < 0.2:
+                # numbers of different kinds compare by the values they denote
+                ct2 = rng.choice([t for t in ('int', 'uint', 'double') if t != ct])
+                op = rng.choice(['<', '<=', '>', '>=', '==', '!='])
+                a, b = (self.leaf(ct), self.leaf(ct2)) if rng.random() < 0.5 else (self.gen(ct, d), self.gen(ct2, d))
+                return ('bin', op, a, b)
             return ('bin', rng.choice(['<', '<=', '>', '>=']), self.gen(ct, d), self.gen(ct, d))
         if m < 0.66:
             et = self.any_type(1)
